@@ -64,6 +64,9 @@ class Gen:
             decs = [[l, ds] for l, ds in [
                 ('TypeScript', [{'word': 'readonly'}] if r.random() < 0.5 else [{'name': 'type', 'value': 'any'}]),
                 ('Kotlin', [{'name': 'type', 'value': 'Any'}]), ('Swift', [{'name': 'type', 'value': 'Int'}])] if r.random() < 0.5]
+            if r.random() < 0.5:   # scala(type = ..) override, a bare word, or both (BTreeSet order: words first)
+                decs.append(['Scala', r.choice([[{'name': 'type', 'value': 'Short'}], [{'word': 'transient'}],
+                                                [{'word': 'transient'}, {'name': 'type', 'value': 'Vector[Byte]'}]])])
             decs.sort()
         return {'id': ir.mk_id(name, renamed, renamed != name and r.random() < 0.7), 'ty': t, 'comments': self.comments(),
                 'has_default': r.random() < 0.2, 'decorators': decs}
